@@ -39,6 +39,17 @@ let z_of_u64_string (s : string) : z =
       if Int64.logand v 1L = 1L then XI (go rest) else XO (go rest) in
   Zpos (go v)
 
+(* unsigned 64-bit decimal string -> N, and back *)
+let n_of_u64_string (s : string) : n =
+  match z_of_u64_string s with Zpos p -> Npos p | _ -> N0
+
+let string_of_n (x : n) : string =
+  let rec go p : int64 = match p with
+    | XH -> 1L
+    | XO p -> Int64.shift_left (go p) 1
+    | XI p -> Int64.logor (Int64.shift_left (go p) 1) 1L in
+  match x with N0 -> "0" | Npos p -> Printf.sprintf "%Lu" (go p)
+
 let string_of_z (x : z) : string =
   (* only used for diagnostics; values fit in 64 bits unsigned *)
   let rec go p : int64 = match p with
